@@ -537,6 +537,15 @@ func (ts *TS) cmp(op Op, a, b *Term) *Term {
 	if b.CT && a.IsConst() && b.Op == OIte {
 		return ts.pushCT(b, func(l *Term) *Term { return ts.Bool(eval(a.Val, l.Val)) })
 	}
+	// canonical form for comparisons against constants: the constant goes on the right
+	if a.IsConst() && !b.IsConst() {
+		if op == OUlt && a.Val != mask(w) {
+			return ts.Not(ts.cmp(OUlt, b, ts.BV(a.Val+1, w)))
+		}
+		if op == OSlt && a.Val != mask(w)>>1 {
+			return ts.Not(ts.cmp(OSlt, b, ts.BV(a.Val+1, w)))
+		}
+	}
 	// interval-based folding
 	alo, ahi, aok := ts.rng(a)
 	blo, bhi, bok := ts.rng(b)
